@@ -91,8 +91,8 @@ PROPS = {
             "rule": "twin runs of generated programs: one Operation object reused for all applications of the same description vs a fresh object per application vs unrelated operations (incl. expression composites with other operand types) constructed/applied between any two steps; per-step comparison of joint state and acceptance/rejection; byte comparison of user supplied operator/Kraus/POVM arrays; cell = (twin, step kind, operation, reused|fresh)"},
     "C17": {"driver": _c17_driver, "profile": "fault-injection",
             "rule": "eleven kinds of invalid request (non trace preserving / wrong-size Kraus, wrong-size POVM and custom operators, wrong subsystem kind, operand outside the envelope/composite, annihilating the vacuum, shrinking below occupied levels, destroyed subsystem, missing parameter, duplicate operands) injected after random steps of valid programs at every entry point; judged: rejected (exception or documented failure value), joint state unchanged, object graph well formed, valid continuation judged by the transition oracles; cell = (fault kind, call, entry, storage, level)"},
-    "C18": {"driver": _hybrid("C18", _C18_PROG, "pwv.twin", "c18_twin", 0.3), "profile": "collide+twin",
-            "rule": "(a) measurement oracle (who was measured, one entry per object) on worlds dominated by equal labels; (b) metamorphic twin: worlds whose subsystems hold numerically equal labels/vectors/matrices vs the same physical world with every pure local state given its own global phase; per step: exceptions, outcome key sets, live sets, storage partition and joint state must agree; cell = (twin, step kind, entry, #operands)"},
+    "C18": {"driver": _lazy("pwv.twin", "c18_twin"), "profile": "collide-twin",
+            "rule": "metamorphic twins: a world whose subsystems hold numerically equal states vs (labels mode) the same world with distinct labels of the same kind and level - structure compared: exceptions, outcome key sets, live sets, storage partition, returned shapes - or (arrays mode) the same physical world with every vector given its own global phase - structure and joint state compared after every step; cell = (twin, mode, step kind, entry, #operands)"},
     "C12": {"driver": _lazy("pwv.drivers_pure", "c12_driver"), "profile": "contract-sweep",
             "rule": "contract on every operator constructor of photon_weave._math.ops and on Operation(...).operator, evaluated on a parameter sweep (angles in [-4pi, 6pi], complex alpha/zeta of any phase, cutoffs 1..24 quick / 1..40 thorough) against an independent numpy/scipy operator library plus algebraic identities; a case = one contract/identity evaluation; cell = (function, parameter class); every cell is non-trivial except none (no fresh-label notion here)"},
     "C16": {"driver": _lazy("pwv.drivers_pure", "c16_driver"), "profile": "contract-trees",
